@@ -776,3 +776,25 @@ Qed.
 Lemma depth_leak_refuted_lemma : forall maxd, 0 < maxd ->
   dec_conn true SpecRpc maxd 0 (repeat [0; 0; 0; 0] maxd) 0 = Some (maxd - 1).
 Proof. intros maxd H. now rewrite (depth_leak_run maxd maxd 0 0) by lia. Qed.
+
+(* ---------------- discarded bodies ---------------- *)
+
+Lemma discard_lemma : forall (msgs : list (bodymode * bodyinfo)) i,
+  Forall (fun mb => fst mb = BTyped -> fits_dest (snd mb) = true) msgs ->
+  conn_bodies discard_via_iface msgs i = None.
+Proof.
+  induction msgs as [|[m b] msgs IH]; intros i H; [reflexivity|].
+  inversion H as [|? ? Hmb Hrest]; subst. cbn [conn_bodies].
+  assert (E : body_ok discard_via_iface m b = true).
+  { destruct m; cbn; [apply Hmb; reflexivity|reflexivity]. }
+  rewrite E. now apply IH.
+Qed.
+
+Lemma discard_refuted_lemma :
+  exists msgs : list (bodymode * bodyinfo),
+    Forall (fun mb => fst mb = BTyped -> fits_dest (snd mb) = true) msgs /\
+    conn_bodies true msgs 0 = Some 1.
+Proof.
+  exists [(BTyped, mkbody true true); (BDiscard, mkbody true false); (BTyped, mkbody true true)].
+  split; [repeat constructor; cbn; intros; try reflexivity; discriminate|reflexivity].
+Qed.
